@@ -382,10 +382,23 @@ Definition chk_C18_d_roundtrip (v : N) (disp : res str) (back : res N) (js : res
   V (sres_eqb (Ok (dec_render v)) disp && nres_eqb (dec_from_str (dec_render v)) back &&
      sres_eqb (Ok (dec_to_json v)) js && nres_eqb (dec_of_json (dec_to_json v)) unjs)
     (nres_eqb (Ok v) back && nres_eqb (Ok v) unjs) false true.
+(* an ACCEPTED JSON document must denote the value it was read as: the numeral inside the quotes, or the bare document
+   itself when it is not quoted *)
+Definition unquote (j : str) : str :=
+  match j with
+  | q :: r => if q =? 34 then match rev r with q' :: r' => if q' =? 34 then rev r' else j | [] => j end else j
+  | [] => j
+  end.
 Definition chk_C18_u_unjson (j : str) (out : res N) : verdict :=
-  V (nres_eqb (uint_of_json j) out) true false (is_ok out).
+  V (nres_eqb (uint_of_json j) out)
+    (match out with
+     | Ok n => let s := unquote j in negb (match s with [] => true | _ => false end) && forallb is_digit s && (denote s =? n)
+     | Err _ => true end) false (is_ok out).
 Definition chk_C18_d_unjson (j : str) (out : res N) : verdict :=
-  V (nres_eqb (dec_of_json j) out) true false (is_ok out).
+  V (nres_eqb (dec_of_json j) out)
+    (match out with
+     | Ok v => match denote_dec (unquote j) with Some x => x =? v | None => false end
+     | Err _ => true end) false (is_ok out).
 (* widths *)
 Definition chk_C18_d_to_cwdec (v : N) (out : res N) : verdict :=
   mk (dec256_to_cwdec v) out (eoa_b out (v <? W128) (fun r => r =? v)).
@@ -418,7 +431,7 @@ Definition chk_C11_hist := chk_hist mon_C11.
 Definition chk_C12_hist := chk_hist mon_C12.
 Definition chk_C13_hist := chk_hist mon_C13.
 Definition chk_C14_hist := chk_hist mon_C14.
-Definition chk_C15_hist := chk_hist mon_generic.
+Definition chk_C15_hist := chk_hist mon_C15.
 Definition chk_C16_hist := chk_hist mon_C16.
 Definition chk_C17_hist := chk_hist mon_C17.
 Definition chk_C20_hist := chk_hist mon_C20.
